@@ -89,7 +89,7 @@ CHECKS["C09"] = {
     "rule": ("random download histories (40-80 steps, a quiescent cut and the conservation equations after every step): 1-6 scripted peers connect, advertise (bitfield/have/have-all/none/dont-have, changing), choke/unchoke, allowed-fast, answer requests with true/corrupt/short/empty/over-long/misplaced/duplicate blocks or rejects, stay silent past the 30 s expiry, disconnect; consumers request/withdraw pieces; evictions; geometries incl. short final block and >=72 pieces. "
              "Distinct = class vector of (answer kinds, choke, disconnect, advert changes, evictions, request/cancel counts); non-trivial = at least one block answered, one dropped (choke/disconnect/reject) and one request seen. The download histories also contain: mailbox back-pressure (torrent loop held while remotes toggle have / dont-have until the mailbox and the peers' overflow lists are full, then released), data pushed for every block of a piece (requested or queued or neither), the same against a remote that is not reading. Part 'large': torrents of 4-9 GiB (piece lengths 48K, 80K, 768K, 3M, 64K, 4M; real hashes only for the demanded pieces, content from the PRF on demand): pieces below / across / above byte 2^32, the last piece and pieces 0-2 are demanded from an honest seed under the same monitors, read back, read through a Reader across 2^32, and uploaded to a leech."),
     "assumptions": E3_ASSUME,
-    "min": {"distinct_nontrivial": {"quick": 50, "thorough": 50}, "counters": {"conservation_cuts": 10000, "allzero_checks": 300, "requests_received": 2000, "backpressure": 300, "large_pieces_completed:above-4GiB": 10}},
+    "min": {"distinct_nontrivial": {"quick": 50, "thorough": 50}, "counters": {"conservation_cuts": 10000, "allzero_checks": 300, "requests_received": 2000, "backpressure": 300, "large_pieces_completed:above-4GiB": 10, "split_events_measured": 5000, "fetch_rounds": 800}},
     "parts": [{"name": "download", "pkg": "c09_conserve", "netns": "isolated", "race": False, "shards": 16, "env": {"VERIF_PROP": "C09"}},
               {"name": "download-race", "pkg": "c09_conserve", "netns": "isolated", "race": True, "shards": 16, "env": {"VERIF_PROP": "C09", "VERIF_RACE_SUBSET": "1"}},
               {"name": "large", "pkg": "c09_conserve", "netns": "isolated", "race": False, "shards": 9, "env": {"VERIF_PROP": "C09"}},
@@ -103,7 +103,7 @@ CHECKS["C11"] = {
     "engine": "E3 swarm",
     "rule": CHECKS["C09"]["rule"].replace("the conservation equations", "the conformance monitor inside each scripted remote judging every message storrent sent Histories also contain scheduler commands injected into peer actors, mailbox back-pressure and pushed data (see C09). Part 'large': torrents of 4-9 GiB (piece lengths 48K, 80K, 768K, 3M, 64K, 4M; real hashes only for the demanded pieces, content from the PRF on demand): pieces below / across / above byte 2^32, the last piece and pieces 0-2 are demanded from an honest seed under the same monitors, read back, read through a Reader across 2^32, and uploaded to a leech."),
     "assumptions": E3_ASSUME + ["messages that reach a remote between its own state-changing message and the next quiescent cut are judged against either the old or the new state (exact exemption window)"],
-    "min": {"distinct_nontrivial": {"quick": 50, "thorough": 50}, "counters": {"requests_received": 2000, "recv:bitfield": 100, "recv:cancel": 100, "recv:pex": 100, "large_pieces_completed:above-4GiB": 10, "large_pieces_completed:spans-4GiB": 5}},
+    "min": {"distinct_nontrivial": {"quick": 50, "thorough": 50}, "counters": {"requests_received": 2000, "recv:bitfield": 100, "recv:cancel": 100, "recv:pex": 100, "pex_final_checks": 500, "bigpool_all_at_once": 20, "large_pieces_completed:above-4GiB": 10, "large_pieces_completed:spans-4GiB": 5}},
     "parts": [{"name": "download", "pkg": "c09_conserve", "netns": "isolated", "race": False, "shards": 16, "env": {"VERIF_PROP": "C11"}},
               {"name": "download-race", "pkg": "c09_conserve", "netns": "isolated", "race": True, "shards": 16, "env": {"VERIF_PROP": "C11", "VERIF_RACE_SUBSET": "1"}},
               {"name": "pex", "pkg": "c09_conserve", "netns": "isolated", "race": False, "shards": 16, "env": {"VERIF_PROP": "C11"}},
